@@ -126,6 +126,19 @@ class M(gen_builder.T):
         if isinstance(e, ast.Constant) and isinstance(e.value, str):
             return '""', "String"                       # message / comment texts are not modelled
         if isinstance(e, ast.JoinedStr):
+            # a text assembled from texts: the interpolated expressions must be names of text parameters / locals or constants -
+            # anything that is evaluated (a call, an attribute, arithmetic) could raise or read state and is refused
+            for v in e.values:
+                if isinstance(v, ast.FormattedValue):
+                    bound = {t.id for n in ast.walk(v.value) if isinstance(n, ast.comprehension) for t in ast.walk(n.target) if isinstance(t, ast.Name)}
+                    for n in ast.walk(v.value):
+                        ok = True
+                        if isinstance(n, ast.Name):
+                            ok = env.get(n.id) in ("Comment", "Texts", "String") or n.id == "str" or n.id in bound
+                        elif isinstance(n, ast.Attribute):
+                            ok = isinstance(n.value, ast.Constant) and isinstance(n.value.value, str) and n.attr == "join"
+                        if not ok or v.format_spec is not None or v.conversion != -1:
+                            fail(e, f"f-string interpolates {ast.unparse(v.value)!r}: only text parameters (str(), ' '.join of them) are expected in message texts")
             return '""', "String"
         if isinstance(e, ast.List) and e.elts and all(isinstance(x, ast.Constant) and isinstance(x.value, str) for x in e.elts):
             return "[" + ", ".join(f'"{x.value}"' for x in e.elts) + "]", "Keys"
@@ -331,7 +344,13 @@ class M(gen_builder.T):
             if ty != pty:
                 fail(c, f"argument {pn} of {f.attr}: expected {pty}, got {ty}")
             args.append(t)
-        # positional arguments that were comments are dropped on both sides
+        # positional arguments that were comments are dropped on both sides - after checking that they are texts built from texts
+        for g in given[i:]:
+            if isinstance(g, ast.Starred):
+                g = g.value
+            t, ty = self.mexpr(g, env)
+            if ty not in ("String", "Comment", "Texts"):
+                fail(c, f"extra argument of {f.attr}: expected a text, got {ty}")
         return f"{fn} {cur} " + " ".join(args) + extra, ret
 
     # ------------------------------------------------------------ statements
